@@ -22,6 +22,11 @@ counted while    `i = 0; while i < N: BODY; i += 1` (the increment is the last s
                  is not written elsewhere in the body, the body has no `continue`, nothing in it rebinds
                  or resizes what N reads, and `i` is not read after the loop) is the loop
                  `for i in range(0, N): BODY`.  Index loops written either way get the same analysis.
+
+append loops     `L = []` directly followed by `for x in IT: L.append(E)` -- optionally guarded by
+                 `if c: L.append(E)` or `if c: continue` before the append -- is the comprehension
+                 `L = [E for x in IT if ...]`, provided the loop variables are not read after the loop and
+                 the body does nothing else.
 """
 
 from __future__ import annotations
@@ -265,6 +270,90 @@ def counted_while_to_for(tree: ast.Module) -> int:
                         new._from_while = True
                         count += 1
             out.append(new if new is not None else st)
+        return out
+
+    for fn in [n for n in ast.walk(tree) if isinstance(n, (ast.FunctionDef, ast.AsyncFunctionDef))]:
+        fn.body = rewrite_block(fn.body, fn)
+    if count:
+        ast.fix_missing_locations(tree)
+    return count
+
+
+def append_loop_to_comprehension(tree: ast.Module) -> int:
+    import copy
+
+    count = 0
+
+    def target_names(t):
+        return {n.id for n in ast.walk(t) if isinstance(n, ast.Name)}
+
+    def match_body(body, L):
+        """(element, [conditions]) when the body only appends to L"""
+        def is_append(st):
+            return isinstance(st, ast.Expr) and isinstance(st.value, ast.Call) and isinstance(st.value.func, ast.Attribute) and st.value.func.attr == "append" and isinstance(st.value.func.value, ast.Name) and st.value.func.value.id == L and len(st.value.args) == 1 and not st.value.keywords
+
+        conds = []
+        rest = list(body)
+        while len(rest) > 1 and isinstance(rest[0], ast.If) and not rest[0].orelse and len(rest[0].body) == 1 and isinstance(rest[0].body[0], ast.Continue):
+            conds.append(ast.UnaryOp(op=ast.Not(), operand=copy.deepcopy(rest[0].test)))
+            rest = rest[1:]
+        if len(rest) == 1 and is_append(rest[0]):
+            return rest[0].value.args[0], conds
+        if len(rest) == 1 and isinstance(rest[0], ast.If) and not rest[0].orelse and len(rest[0].body) == 1 and is_append(rest[0].body[0]):
+            return rest[0].body[0].value.args[0], conds + [copy.deepcopy(rest[0].test)]
+        return None
+
+    def simplify_not(c):
+        # not (a == b) -> a != b, etc.
+        if isinstance(c, ast.UnaryOp) and isinstance(c.op, ast.Not) and isinstance(c.operand, ast.Compare) and len(c.operand.ops) == 1:
+            flip = {ast.Eq: ast.NotEq, ast.NotEq: ast.Eq, ast.In: ast.NotIn, ast.NotIn: ast.In, ast.Is: ast.IsNot, ast.IsNot: ast.Is, ast.Lt: ast.GtE, ast.GtE: ast.Lt, ast.Gt: ast.LtE, ast.LtE: ast.Gt}
+            op = type(c.operand.ops[0])
+            if op in flip and op in (ast.Eq, ast.NotEq, ast.In, ast.NotIn, ast.Is, ast.IsNot):
+                return ast.Compare(left=c.operand.left, ops=[flip[op]()], comparators=c.operand.comparators)
+        return c
+
+    def rewrite_block(block, fn_node):
+        nonlocal count
+        out = []
+        k = 0
+        while k < len(block):
+            st = block[k]
+            for fld in ("body", "orelse", "finalbody"):
+                sub = getattr(st, fld, None)
+                if isinstance(sub, list) and sub and isinstance(sub[0], ast.stmt) and not isinstance(st, (ast.FunctionDef, ast.AsyncFunctionDef, ast.ClassDef)):
+                    setattr(st, fld, rewrite_block(sub, fn_node))
+            for h in getattr(st, "handlers", []) or []:
+                h.body = rewrite_block(h.body, fn_node)
+            nxt = block[k + 1] if k + 1 < len(block) else None
+            done = False
+            if (
+                isinstance(st, ast.Assign)
+                and len(st.targets) == 1
+                and isinstance(st.targets[0], ast.Name)
+                and ((isinstance(st.value, ast.List) and not st.value.elts) or (isinstance(st.value, ast.Call) and isinstance(st.value.func, ast.Name) and st.value.func.id == "list" and not st.value.args))
+                and isinstance(nxt, ast.For)
+                and not nxt.orelse
+            ):
+                L = st.targets[0].id
+                m = match_body(nxt.body, L)
+                tn = target_names(nxt.target)
+                if m is not None and L not in tn and not any(isinstance(n, ast.Name) and n.id == L for n in ast.walk(nxt.iter)) and not any(isinstance(n, ast.Name) and n.id == L for n in ast.walk(m[0])) and not any(isinstance(n, ast.Name) and n.id == L for c in m[1] for n in ast.walk(c)):
+                    inside = {id(n) for n in ast.walk(nxt)}
+                    later_reads = [n for n in ast.walk(fn_node) if isinstance(n, ast.Name) and n.id in tn and isinstance(n.ctx, ast.Load) and id(n) not in inside and getattr(n, "lineno", 0) > nxt.lineno]
+                    # a later read is harmless when the name is re-bound before it; keep it simple: require none
+                    if not later_reads:
+                        comp = ast.ListComp(elt=copy.deepcopy(m[0]), generators=[ast.comprehension(target=copy.deepcopy(nxt.target), iter=copy.deepcopy(nxt.iter), ifs=[simplify_not(c) for c in m[1]], is_async=0)])
+                        new = ast.Assign(targets=[ast.Name(id=L, ctx=ast.Store())], value=comp, type_comment=None)
+                        ast.copy_location(new, st)
+                        ast.copy_location(comp, nxt)
+                        new._from_append_loop = True
+                        out.append(new)
+                        count += 1
+                        k += 2
+                        done = True
+            if not done:
+                out.append(st)
+                k += 1
         return out
 
     for fn in [n for n in ast.walk(tree) if isinstance(n, (ast.FunctionDef, ast.AsyncFunctionDef))]:
